@@ -238,7 +238,20 @@ func (r *Rng) StringValue(o *ValOpts) string {
 		// long and dense in characters that expand when escaped: the output buffer of
 		// the escaping passes has to grow several times
 		unit := []string{"<&>", "<", " a", "\"\\", "\x01", "&amp;<b>"}[r.Intn(6)]
-		return strings.Repeat(unit, r.Range(200, 4000))
+		// (not periodic: a routine that resumes at a wrong offset after growing its buffer
+		// would otherwise reproduce the same bytes)
+		n := r.Range(200, 4000)
+		var sb strings.Builder
+		for j := 0; j < n; j++ {
+			sb.WriteString(unit)
+			if j%5 == 4 {
+				sb.WriteByte(byte('a' + (j/5)%26))
+			}
+			if j%131 == 130 {
+				sb.WriteString(strconv.Itoa(j))
+			}
+		}
+		return sb.String()
 	}
 	switch r.Intn(8) {
 	case 0, 1, 2:
